@@ -15,4 +15,4 @@ for p in $ids; do
   echo "$p exit=$rc $(( $(date +%s)-s ))s $(grep -c '^VIOLATION' /tmp/ref_${tag}_$p.out) violations; $(grep -m3 -E '^  [A-Z][0-9]+_|^  [A-Z]+[0-9]*_|TOOL-ERROR' /tmp/ref_${tag}_$p.out | tr '\n' ';' | cut -c1-400)"
   [ -f /tmp/try_ev_$p.json ] && mv /tmp/try_ev_$p.json /verif/evidence/$p.json
 done
-git -C /repo checkout -- .
+git -C /repo checkout -- . ; git -C /repo clean -fdq -- src
